@@ -377,6 +377,25 @@ def run_chain_case(run, rng, kind, big=False, force=None):
         mps.ensure_left_canonical()
     else:
         mps.ensure_right_canonical()
+    # restart-like guesses: something added to / applied on a canonical state.  The centre flags (qnidx, to_right) then still
+    # look like those of a canonical state although the tensors are no longer isometric
+    guess_kind = "canonical"
+    if ofs is None and rng.random() < 0.35:
+        noise = L.random_mps(model, rng, qntot, max(2, min(4, m0)))
+        if noise is not None:
+            if tm.extra.get("complex_hopping"):
+                noise = noise.to_complex()
+            try:
+                if rng.random() < 0.5:
+                    mps = noise.scale(0.3).add(mps)          # flags of the second operand
+                    guess_kind = "noise+canonical"
+                else:
+                    mps = mps.add(noise.scale(0.3))
+                    guess_kind = "canonical+noise"
+                mps.optimize_config = mps.optimize_config.copy() if hasattr(mps.optimize_config, "copy") else mps.optimize_config
+            except Exception:  # noqa
+                guess_kind = "canonical"
+    run.count(f"chain:guess={guess_kind}")
     if ofs is not None:
         procedure = [[CompressConfig(CompressCriteria.fixed, max_bonddim=m, ofs=ofs, ofs_swap_jw=False), p] for m, p in procedure]
     mps.optimize_config.procedure = procedure
